@@ -78,6 +78,8 @@ structure Obj where
   tparams : List (Str × Nat) := []
   constVal : Option Str := none
   src : Option Nat := none                            -- ghost: the Go node the object was filled from
+  nsrc : Option Nat := none                           -- ghost: the defined type's node whose methods phase ran on the object
+  nskip : Bool := false                               -- ghost: that phase found methods already there (an interface) and added none
 deriving Repr
 
 structure PkgRec where
@@ -263,14 +265,15 @@ def isStructOrIface : GNode → Bool
 def genericName (n : Name) (tparams : List (Str × Nat)) : Name :=
   ⟨n.pkg, n.name.takeWhile (· != '[') ++ ['['] ++ Str.join [','] (tparams.map (·.1)) ++ [']']⟩
 
-/-- the methods phase: "if the underlying type didn't already add methods, add them" -/
-def addMethods (v2 : Bool) (w : U → Nat → Option Name → Option (U × Nat)) (u : U) (o : Nat) (ms : List GMethod) :
+/-- the methods phase: "if the underlying type didn't already add methods, add them" (`g`: the defined type's node, recorded
+in the ghost fields only) -/
+def addMethods (v2 : Bool) (w : U → Nat → Option Name → Option (U × Nat)) (u : U) (o : Nat) (ms : List GMethod) (g : Nat) :
     Option (U × Nat) :=
   if (u.obj o).methods.isEmpty then
-    match runKids w o u (methodKids v2 ms) with
+    match runKids w o (u.modify o (fun ob => { ob with nsrc := some g, nskip := false })) (methodKids v2 ms) with
     | none => none
     | some u => some (u, o)
-  else some (u, o)
+  else some (u.modify o (fun ob => { ob with nsrc := some g, nskip := true }), o)
 
 def walk (bt : List Builtin) (F : Facts) (v2 : Bool) : Nat → U → Nat → Option Name → Option (U × Nat)
   | 0, _, _, _ => none
@@ -294,7 +297,7 @@ def walk (bt : List Builtin) (F : Facts) (v2 : Bool) : Nat → U → Nat → Opt
         let u := r.1.modify r.2 (fun ob => { ob with kind := .alias, src := some g })
         match runKids w r.2 u [(und, none, .under)] with
         | none => none
-        | some u => addMethods v2 w u r.2 ms
+        | some u => addMethods v2 w u r.2 ms g
       else if v2 && isStructOrIface (F.node und) then
         -- constraints are walked first (their objects enter the universe), then the name is rewritten
         match runKids w 0 u (tps.map (fun tp => (tp.2, none, Setter.drop))) with
@@ -309,13 +312,13 @@ def walk (bt : List Builtin) (F : Facts) (v2 : Bool) : Nat → U → Nat → Opt
             -- `out.TypeParams = tpMap`: the constraint objects are looked up again (they exist now)
             match runKids w o (u.modify o (fun ob => { ob with tparams := [] })) (tps.map (fun tp => (tp.2, none, Setter.tparam tp.1))) with
             | none => none
-            | some u => addMethods v2 w u o ms
+            | some u => addMethods v2 w u o ms g
       else
         let r := U.type bt u n
         if r.1.kind r.2 ≠ .unknown then some r else
         match w r.1 und (some n) with
         | none => none
-        | some (u, o) => addMethods v2 w u o ms
+        | some (u, o) => addMethods v2 w u o ms g
     | node =>
       match shape v2 node with
       | some (K, kids) => fill bt w u (useName.getD (nameOf v2 (F.str g))) g gn K kids
